@@ -12,6 +12,8 @@ def stop_plumbing(ctx, rule):
     ts = ctx.facts.find_adt("watchexec_cli::args::TimeSpan")
     ctx.require(bool(st) and st[0]["ty"] == "watchexec_cli::args::TimeSpan", rule, "stop-timeout-unit", "--stop-timeout is TimeSpan with the default multiplier: unit-less = seconds",
                 detail=st[0]["ty"] if st else "", fail="--stop-timeout no longer reads unit-less values as seconds (%s): the grace period is a thousand times shorter than asked" % (st[0]["ty"] if st else "field missing"))
+    from . import c02 as _c02t
+    _c02t.timespan_parse(ctx, rule)
     mk = ctx.anchor_fn(rule, "watchexec_cli::config::make_config")
     lets = {}
     for s_ in thir.walk(thir.root(mk)):
